@@ -78,7 +78,7 @@ theorem c12_token (env : Env) (pre post : List Step) (rid : Rid) (host tok : Str
   have hnone : ∀ (s1 : State), s1.tokPend = s.tokPend → s1.nextRid = rid + 1 → Inv env s1 →
       Out.tok t ∈ (runSteps env s1 post).2 → False := by
     intro s1 e1 e2 hs1 h1
-    have hrid : RidTok rid (fun _ _ _ => False) s1 :=
+    have hrid : RidTok rid (fun _ _ _ _ => False) s1 :=
       ⟨by rw [e2]; exact Nat.lt_succ_self _, fun p hp e => hold p (e1 ▸ hp) e⟩
     obtain ⟨_, c, _, hF⟩ := run_tok rid _ post _ hs1 hrid t h1 hr
     exact hF
@@ -109,7 +109,7 @@ theorem c12_token (env : Env) (pre post : List Step) (rid : Rid) (host tok : Str
     | inr h1 =>
       have hs1 := inv_tokBegin hinv rid host tok ch up
       rw [hb] at hs1
-      exact (hnone _ rfl rfl hs1 h1).elim
+      exact (hnone { s with nextRid := rid + 1 } rfl rfl hs1 h1).elim
   | ok ce =>
     obtain ⟨c, e⟩ := ce
     obtain ⟨hg, hready⟩ := ownReady_of_ok hcf
@@ -132,28 +132,21 @@ theorem c12_token (env : Env) (pre post : List Step) (rid : Rid) (host tok : Str
       | inr h1 =>
         have hs1 := inv_tokBegin hinv rid host tok ch up
         rw [hb] at hs1
-        exact (hnone _ rfl rfl hs1 h1).elim
+        exact (hnone { s with nextRid := rid + 1 } rfl rfl hs1 h1).elim
     | false =>
       have hb := tokBegin_of_ok (env := env) (tok := tok) hfresh hcf hbe
       rw [hb] at ht
       simp only [List.nil_append] at ht
       have hs1 := inv_tokBegin hinv rid host tok ch up
       rw [hb] at hs1
-      have hrid : RidTok rid (fun h t i => h = host ∧ t = tok ∧ i = c)
+      have hrid : RidTok rid (fun h t i u => h = host ∧ t = tok ∧ i = c ∧ u = up)
           (setTok { s with nextRid := rid + 1 } ⟨rid, host, tok, c, up, .resolved⟩) := by
         refine ⟨Nat.lt_succ_self _, fun p hp e => ?_⟩
         cases mem_setTok hp with
-        | inl h1 => subst h1; exact ⟨rfl, rfl, rfl⟩
+        | inl h1 => subst h1; exact ⟨rfl, rfl, rfl, rfl⟩
         | inr h1 => exact (hold p h1 e).elim
-      have hup : RidTok rid (fun _ _ _ => True) (setTok { s with nextRid := rid + 1 } ⟨rid, host, tok, c, up, .resolved⟩) :=
-        ⟨hrid.1, fun _ _ _ => trivial⟩
-      obtain ⟨hok, c', hi, h1, h2, h3⟩ := run_tok rid _ post _ hs1 hrid t ht hr
+      obtain ⟨hok, c', hi, h1, h2, h3, hupstream⟩ := run_tok rid _ post _ hs1 hrid t ht hr
       subst h3
-      have hupstream : t.upstream = up := run_tok_upstream rid up post _ hs1
-        ⟨hrid.1, fun p hp e => by
-          cases mem_setTok hp with
-          | inl h1 => subst h1; rfl
-          | inr h1 => exact (hold p h1 e).elim⟩ t ht hr
       refine ⟨h1, h2, hupstream, by rw [hi, hg], ?_, fun _ => ⟨c', hg, hready, hbe⟩⟩
       rw [hg, hready, ← h2]
       exact tokJudge_of_ok hok hi
@@ -176,7 +169,7 @@ theorem c12_sar (env : Env) (pre post : List Step) (rid : Rid) (host : Str) (att
   have hnone : ∀ (s1 : State), s1.sarPend = s.sarPend → s1.nextRid = rid + 1 → Inv env s1 →
       Out.sar t ∈ (runSteps env s1 post).2 → False := by
     intro s1 e1 e2 hs1 h1
-    have hrid : RidSar rid (fun _ _ _ => False) s1 :=
+    have hrid : RidSar rid (fun _ _ _ _ => False) s1 :=
       ⟨by rw [e2]; exact Nat.lt_succ_self _, fun p hp e => hold p (e1 ▸ hp) e⟩
     obtain ⟨_, c, _, hF⟩ := run_sar rid _ post _ hs1 hrid t h1 hr
     exact hF
@@ -207,7 +200,7 @@ theorem c12_sar (env : Env) (pre post : List Step) (rid : Rid) (host : Str) (att
     | inr h1 =>
       have hs1 := inv_sarBegin hinv rid host attrs ch up
       rw [hb] at hs1
-      exact (hnone _ rfl rfl hs1 h1).elim
+      exact (hnone { s with nextRid := rid + 1 } rfl rfl hs1 h1).elim
   | ok ce =>
     obtain ⟨c, e⟩ := ce
     obtain ⟨hg, hready⟩ := ownReady_of_ok hcf
@@ -229,7 +222,7 @@ theorem c12_sar (env : Env) (pre post : List Step) (rid : Rid) (host : Str) (att
       | inr h1 =>
         have hs1 := inv_sarBegin hinv rid host attrs ch up
         rw [hb] at hs1
-        exact (hnone _ rfl rfl hs1 h1).elim
+        exact (hnone { s with nextRid := rid + 1 } rfl rfl hs1 h1).elim
     | false =>
       have hb := sarBegin_of_ok (env := env) (attrs := attrs) hfresh hcf hbe
       rw [hb] at ht
@@ -243,12 +236,10 @@ theorem c12_sar (env : Env) (pre post : List Step) (rid : Rid) (host : Str) (att
         cases mem_setSar hp with
         | inl h1 => subst h1; exact ⟨rfl, rfl, rfl, rfl⟩
         | inr h1 => exact (hold p h1 e').elim
-      have hrid : RidSar rid (fun h a i => h = host ∧ a = attrs ∧ i = c) _ :=
-        ⟨Nat.lt_succ_self _, fun p hp e' => ⟨(hmem p hp e').1, (hmem p hp e').2.1, (hmem p hp e').2.2.1⟩⟩
-      obtain ⟨hok, c', hi, h1, h2, h3⟩ := run_sar rid _ post _ hs1 hrid t ht hr
+      have hrid : RidSar rid (fun h a i u => h = host ∧ a = attrs ∧ i = c ∧ u = up) _ :=
+        ⟨Nat.lt_succ_self _, fun p hp e' => hmem p hp e'⟩
+      obtain ⟨hok, c', hi, h1, h2, h3, hupstream⟩ := run_sar rid _ post _ hs1 hrid t ht hr
       subst h3
-      have hupstream : t.upstream = up := run_sar_upstream rid up post _ hs1
-        ⟨Nat.lt_succ_self _, fun p hp e' => (hmem p hp e').2.2.2⟩ t ht hr
       refine ⟨h1, h2, hupstream, by rw [hi, hg], ?_, fun _ => ⟨c', hg, hready, hbe⟩⟩
       rw [hg, hready, ← h2]
       exact sarJudge_of_ok hok hi
@@ -256,12 +247,12 @@ theorem c12_sar (env : Env) (pre post : List Step) (rid : Rid) (host : Str) (att
 /-! ## consequences spelled out -/
 
 /-- fail closed: unknown host or no ready endpoint ⇒ every answer to the request is the fixed error, not authenticated -/
-theorem c12_token_fail_closed (env : Env) (pre post : List Step) (rid : Rid) (host tok : Str) (ch : Nat)
+theorem c12_token_fail_closed (env : Env) (pre post : List Step) (rid : Rid) (host tok : Str) (ch : Nat) (up : Option Inst)
     (hfresh : (reach env pre).nextRid ≤ rid) (t : TokOut)
-    (ht : Out.tok t ∈ (runSteps env (reach env pre) (.tokBegin rid host tok ch :: post)).2) (hr : t.rid = rid)
+    (ht : Out.tok t ∈ (runSteps env (reach env pre) (.tokBegin rid host tok ch up :: post)).2) (hr : t.rid = rid)
     (hno : ownReady (reach env pre) host = false) :
     (t.res = .error .notFound ∨ t.res = .error .noReady) ∧ t.ep = none := by
-  obtain ⟨_, _, _, hj⟩ := c12_token env pre post rid host tok ch hfresh t ht hr
+  obtain ⟨_, _, _, _, hj, _⟩ := c12_token env pre post rid host tok ch up hfresh t ht hr
   unfold TokJudge at hj
   unfold ownReady at hno
   cases hg : mgrGet (reach env pre).mgr host with
@@ -275,12 +266,12 @@ theorem c12_token_fail_closed (env : Env) (pre post : List Step) (rid : Rid) (ho
     exact ⟨Or.inr hj.1, by simpa using hj.2⟩
 
 /-- fail closed: unknown host or no ready endpoint ⇒ deny with an error, nothing asked -/
-theorem c12_sar_fail_closed (env : Env) (pre post : List Step) (rid : Rid) (host : Str) (attrs : Attrs) (ch : Nat)
+theorem c12_sar_fail_closed (env : Env) (pre post : List Step) (rid : Rid) (host : Str) (attrs : Attrs) (ch : Nat) (up : Option Inst)
     (hfresh : (reach env pre).nextRid ≤ rid) (t : SarOut)
-    (ht : Out.sar t ∈ (runSteps env (reach env pre) (.sarBegin rid host attrs ch :: post)).2) (hr : t.rid = rid)
+    (ht : Out.sar t ∈ (runSteps env (reach env pre) (.sarBegin rid host attrs ch up :: post)).2) (hr : t.rid = rid)
     (hno : ownReady (reach env pre) host = false) :
     t.res.decision = .deny ∧ (t.res.err = some .notFound ∨ t.res.err = some .noReady) ∧ t.ep = none := by
-  obtain ⟨_, _, _, _, hj⟩ := c12_sar env pre post rid host attrs ch hfresh t ht hr
+  obtain ⟨_, _, _, _, ⟨_, hj⟩, _⟩ := c12_sar env pre post rid host attrs ch up hfresh t ht hr
   unfold ownReady at hno
   cases hg : mgrGet (reach env pre).mgr host with
   | none =>
@@ -297,13 +288,13 @@ theorem c12_sar_fail_closed (env : Env) (pre post : List Step) (rid : Rid) (host
     · rw [hj.1]; rfl
 
 /-- an authenticated / unauthenticated (non-error) answer always comes from the oracle of the request's own cluster -/
-theorem c12_token_answer_from_own_cluster (env : Env) (pre post : List Step) (rid : Rid) (host tok : Str) (ch : Nat)
+theorem c12_token_answer_from_own_cluster (env : Env) (pre post : List Step) (rid : Rid) (host tok : Str) (ch : Nat) (up : Option Inst)
     (hfresh : (reach env pre).nextRid ≤ rid) (t : TokOut)
-    (ht : Out.tok t ∈ (runSteps env (reach env pre) (.tokBegin rid host tok ch :: post)).2) (hr : t.rid = rid)
+    (ht : Out.tok t ∈ (runSteps env (reach env pre) (.tokBegin rid host tok ch up :: post)).2) (hr : t.rid = rid)
     (hne : t.res.isError = false) :
     ∃ c, mgrGet (reach env pre).mgr host = some c ∧ ∃ t', t' ≤ t.time ∧ t.res = (env.tokO c tok t').res ∧
       (t' = t.time ∨ t.time < t' + tokTTL env.cfg (env.tokO c tok t')) := by
-  obtain ⟨_, _, _, hj⟩ := c12_token env pre post rid host tok ch hfresh t ht hr
+  obtain ⟨_, _, _, _, hj, _⟩ := c12_token env pre post rid host tok ch up hfresh t ht hr
   unfold TokJudge at hj
   cases hg : mgrGet (reach env pre).mgr host with
   | none =>
@@ -323,13 +314,13 @@ theorem c12_token_answer_from_own_cluster (env : Env) (pre post : List Step) (ri
           exact ⟨t', h1, h3, Or.inr h4⟩
 
 /-- an allow (or any error-free decision) always comes from the oracle of the request's own cluster -/
-theorem c12_sar_answer_from_own_cluster (env : Env) (pre post : List Step) (rid : Rid) (host : Str) (attrs : Attrs) (ch : Nat)
+theorem c12_sar_answer_from_own_cluster (env : Env) (pre post : List Step) (rid : Rid) (host : Str) (attrs : Attrs) (ch : Nat) (up : Option Inst)
     (hfresh : (reach env pre).nextRid ≤ rid) (t : SarOut)
-    (ht : Out.sar t ∈ (runSteps env (reach env pre) (.sarBegin rid host attrs ch :: post)).2) (hr : t.rid = rid)
+    (ht : Out.sar t ∈ (runSteps env (reach env pre) (.sarBegin rid host attrs ch up :: post)).2) (hr : t.rid = rid)
     (hne : t.res.err = none) :
     ∃ c, mgrGet (reach env pre).mgr host = some c ∧ ∃ t', t' ≤ t.time ∧ ∃ st, env.sarO c (specOf attrs) t' = .status st ∧
       t.res = decideStatus st ∧ t.time ≤ t' + sarTTL env.cfg st := by
-  obtain ⟨_, _, _, _, hj⟩ := c12_sar env pre post rid host attrs ch hfresh t ht hr
+  obtain ⟨_, _, _, _, ⟨_, hj⟩, _⟩ := c12_sar env pre post rid host attrs ch up hfresh t ht hr
   have hderr : (sarErr .notFound).err ≠ none ∧ (sarErr .noReady).err ≠ none := ⟨by simp [sarErr], by simp [sarErr]⟩
   cases hg : mgrGet (reach env pre).mgr host with
   | none =>
@@ -349,8 +340,11 @@ theorem c12_sar_answer_from_own_cluster (env : Env) (pre post : List Step) (rid 
         | status st =>
           rw [hans] at hj
           exact ⟨t.time, Nat.le_refl _, st, hans, hj, Nat.le_add_right _ _⟩
-      · obtain ⟨t', h1, st, h2, h3, h4⟩ := hj
-        exact ⟨t', h1, st, h2, h3, h4⟩
+      · cases hj with
+        | inl hj => rw [hj] at hne; simp [sarErr] at hne
+        | inr hj =>
+          obtain ⟨t', h1, st, h2, h3, h4⟩ := hj
+          exact ⟨t', h1, st, h2, h3, h4⟩
 
 
 /-! ## sequences of requests: an uninterrupted request is answered exactly once -/
@@ -358,56 +352,68 @@ theorem c12_sar_answer_from_own_cluster (env : Env) (pre post : List Step) (rid 
 /-- A whole `AuthenticateToken` call with nothing in between, from any reachable state, gives exactly one answer —
     to which `c12_token` (with `post` = the rest of the call) applies. Together: for EVERY sequence of requests and
     events, each request gets one answer and it is the judge's. -/
-theorem c12_token_answered_once (env : Env) (pre : List Step) (rid : Rid) (host tok : Str) (ch1 ch2 : Nat)
+theorem c12_token_answered_once (env : Env) (pre : List Step) (rid : Rid) (host tok : Str) (ch1 ch2 : Nat) (up : Option Inst)
     (hfresh : (reach env pre).nextRid ≤ rid) :
-    ∃ t, (runSteps env (reach env pre) (tokSteps rid host tok ch1 ch2)).2 = [.tok t] ∧ t.rid = rid := by
+    ∃ t, (runSteps env (reach env pre) (tokSteps rid host tok ch1 ch2 up)).2 = [.tok t] ∧ t.rid = rid := by
   have hinv := c12_invariant env pre
   generalize reach env pre = s at *
   have hold : ∀ p ∈ s.tokPend, p.rid ≠ rid := fun p hp e =>
     absurd (hinv.tokP p hp).1 (by rw [e]; exact Nat.not_lt_of_le hfresh)
+  have hnone : findTok { s with nextRid := rid + 1 } rid = none := findTok_none_of (s := { s with nextRid := rid + 1 }) hold
+  have hn := tok_noop (env := env) hnone ch2
   unfold tokSteps
   cases hcf : clientFor s host ch1 with
   | error k =>
-    have hb := tokBegin_of_err (tok := tok) hfresh hcf
-    have hnone : findTok { s with nextRid := rid + 1 } rid = none := findTok_none_of (s := { s with nextRid := rid + 1 }) hold
-    have hn := tok_noop (env := env) hnone ch2
+    have hb := tokBegin_of_err (env := env) (tok := tok) (up := up) hfresh hcf
     simp only [runSteps, step, hb, hn.1, hn.2.1, hn.2.2.1, hn.2.2.2, List.append_nil]
     exact ⟨_, rfl, rfl⟩
   | ok ce =>
     obtain ⟨c, e⟩ := ce
-    have hb := tokBegin_of_ok (tok := tok) hfresh hcf
-    have hrest := tokCache_rest_answers (env := env) (p := ⟨rid, host, tok, c, .resolved⟩) ch2
-      (findTok_setTok { s with nextRid := rid + 1 } ⟨rid, host, tok, c, .resolved⟩) rfl
-    obtain ⟨t, h1, h2⟩ := hrest
-    refine ⟨t, ?_, h2⟩
-    rw [← h1]
-    simp only [runSteps, step, hb, List.nil_append]
+    cases hbe : boundElsewhere env.cfg.bindTok up c with
+    | true =>
+      have hb := tokBegin_of_bound (env := env) (tok := tok) hfresh hcf hbe
+      simp only [runSteps, step, hb, hn.1, hn.2.1, hn.2.2.1, hn.2.2.2, List.append_nil]
+      exact ⟨_, rfl, rfl⟩
+    | false =>
+      have hb := tokBegin_of_ok (env := env) (tok := tok) hfresh hcf hbe
+      have hrest := tokCache_rest_answers (env := env) (p := ⟨rid, host, tok, c, up, .resolved⟩) ch2
+        (findTok_setTok { s with nextRid := rid + 1 } ⟨rid, host, tok, c, up, .resolved⟩) rfl
+      obtain ⟨t, h1, h2⟩ := hrest
+      refine ⟨t, ?_, h2⟩
+      rw [← h1]
+      simp only [runSteps, step, hb, List.nil_append]
 
-theorem c12_sar_answered_once (env : Env) (pre : List Step) (rid : Rid) (host : Str) (attrs : Attrs) (ch : Nat)
+theorem c12_sar_answered_once (env : Env) (pre : List Step) (rid : Rid) (host : Str) (attrs : Attrs) (ch : Nat) (up : Option Inst)
     (hfresh : (reach env pre).nextRid ≤ rid) :
-    ∃ t, (runSteps env (reach env pre) (sarSteps rid host attrs ch)).2 = [.sar t] ∧ t.rid = rid := by
+    ∃ t, (runSteps env (reach env pre) (sarSteps rid host attrs ch up)).2 = [.sar t] ∧ t.rid = rid := by
   have hinv := c12_invariant env pre
   generalize reach env pre = s at *
   have hold : ∀ p ∈ s.sarPend, p.rid ≠ rid := fun p hp e =>
     absurd (hinv.sarP p hp).1 (by rw [e]; exact Nat.not_lt_of_le hfresh)
+  have hnone : findSar { s with nextRid := rid + 1 } rid = none := findSar_none_of (s := { s with nextRid := rid + 1 }) hold
+  have hn := sar_noop (env := env) hnone
   unfold sarSteps
   cases hcf : clientFor s host ch with
   | error k =>
-    have hb := sarBegin_of_err (attrs := attrs) hfresh hcf
-    have hnone : findSar { s with nextRid := rid + 1 } rid = none := findSar_none_of (s := { s with nextRid := rid + 1 }) hold
-    have hn := sar_noop (env := env) hnone
+    have hb := sarBegin_of_err (env := env) (attrs := attrs) (up := up) hfresh hcf
     simp only [runSteps, step, hb, hn.1, hn.2.1, hn.2.2, List.append_nil]
     exact ⟨_, rfl, rfl⟩
   | ok ce =>
     obtain ⟨c, e⟩ := ce
-    have hb := sarBegin_of_ok (attrs := attrs) hfresh hcf
-    have hrest := sarCache_rest_answers (env := env)
-      (p := ⟨rid, host, attrs, c, e.name, readyNames { s with nextRid := rid + 1 } c, .resolved⟩)
-      (findSar_setSar { s with nextRid := rid + 1 } _) rfl
-    obtain ⟨t, h1, h2⟩ := hrest
-    refine ⟨t, ?_, h2⟩
-    rw [← h1]
-    simp only [runSteps, step, hb, List.nil_append]
+    cases hbe : boundElsewhere env.cfg.bindSar up c with
+    | true =>
+      have hb := sarBegin_of_bound (env := env) (attrs := attrs) hfresh hcf hbe
+      simp only [runSteps, step, hb, hn.1, hn.2.1, hn.2.2, List.append_nil]
+      exact ⟨_, rfl, rfl⟩
+    | false =>
+      have hb := sarBegin_of_ok (env := env) (attrs := attrs) hfresh hcf hbe
+      have hrest := sarCache_rest_answers (env := env)
+        (p := ⟨rid, host, attrs, c, up, e.name, readyNames { s with nextRid := rid + 1 } c, .resolved⟩)
+        (findSar_setSar { s with nextRid := rid + 1 } _) rfl
+      obtain ⟨t, h1, h2⟩ := hrest
+      refine ⟨t, ?_, h2⟩
+      rw [← h1]
+      simp only [runSteps, step, hb, List.nil_append]
 
 /-- what the correspondence harness compares the real code with (`runMacros`: requests with events and nested
     requests scheduled between their steps) is a small-step run from `init`, so every theorem above applies to it -/
@@ -415,6 +421,58 @@ theorem c12_scheduled_runs_are_small_step_runs (env : Env) (ms : List Macro) :
     runSteps env init (runMacros env ⟨init, [], []⟩ ms).steps =
       ((runMacros env ⟨init, [], []⟩ ms).s, (runMacros env ⟨init, [], []⟩ ms).outs) :=
   runOK_macros env ms _ (runOK_init env)
+
+/-! ## the filter chain: a request is decided only by the cluster it is bound to
+
+`WithUpstreamInfo` binds a request to `info.UpstreamCluster = manager.Get(host)` — the cluster the dispatcher proxies it
+to — BEFORE the authentication and impersonation filters run, and those resolve the host again. `Pipeline env` is the
+full statement at that level: whatever happens between the binding and the authenticator's / authorizer's own
+`ClientFor` (e.g. the server name moves to another live cluster) and afterwards, a request bound to `u` is only ever
+reviewed by `u`, and only ever gets an answer that is not an error from `u`'s own oracle. It holds exactly because the
+two functions refuse a request whose bound cluster differs from the cluster resolved now (fix 45e3360; the model reads
+from the source whether they do: `KG.Gen.C12.bindsTokenToUpstream`, `bindsSarToUpstream`). -/
+
+def Pipeline (env : Env) : Prop :=
+  (∀ (pre post : List Step) (rid : Rid) (host tok : Str) (ch : Nat) (u : Inst) (t : TokOut),
+    (reach env pre).nextRid ≤ rid →
+    Out.tok t ∈ (runSteps env (reach env pre) (.tokBegin rid host tok ch (some u) :: post)).2 → t.rid = rid →
+    (t.res.isError = false ∨ t.ep.isSome = true) →
+      TokJudge env ⟨some u, true, tok, t.res, t.time, t.ep.isSome⟩) ∧
+  (∀ (pre post : List Step) (rid : Rid) (host : Str) (attrs : Attrs) (ch : Nat) (u : Inst) (t : SarOut),
+    (reach env pre).nextRid ≤ rid →
+    Out.sar t ∈ (runSteps env (reach env pre) (.sarBegin rid host attrs ch (some u) :: post)).2 → t.rid = rid →
+    (t.res.err = none ∨ t.ep.isSome = true) →
+      SarJudge env ⟨some u, true, attrs, t.res, t.time, t.ep.isSome⟩)
+
+/-- with both checks in place the full statement holds, for every oracle behaviour, TTL configuration and history -/
+theorem c12_pipeline_of_binding (env : Env) (h1 : env.cfg.bindTok = true) (h2 : env.cfg.bindSar = true) : Pipeline env := by
+  refine ⟨?_, ?_⟩
+  · intro pre post rid host tok ch u t hfresh ht hr hne
+    obtain ⟨_, _, _, _, hj, hb⟩ := c12_token env pre post rid host tok ch (some u) hfresh t ht hr
+    obtain ⟨c, hg, hready, hbe⟩ := hb hne
+    rw [h1] at hbe
+    have := boundElsewhere_false hbe
+    subst this
+    rw [hg, hready] at hj
+    exact hj
+  · intro pre post rid host attrs ch u t hfresh ht hr hne
+    obtain ⟨_, _, _, _, hj, hb⟩ := c12_sar env pre post rid host attrs ch (some u) hfresh t ht hr
+    obtain ⟨c, hg, hready, hbe⟩ := hb hne
+    rw [h2] at hbe
+    have := boundElsewhere_false hbe
+    subst this
+    rw [hg, hready] at hj
+    exact hj
+
+/-- the configuration the source has NOW: the two flags as the extractor reads them from /repo on every run -/
+def fromSource (env : Env) : Env :=
+  { env with cfg := { env.cfg with bindTok := KG.Gen.C12.bindsTokenToUpstream, bindSar := KG.Gen.C12.bindsSarToUpstream } }
+
+/-- **the current tree**: the full statement, unconditionally (this is the configuration the correspondence harness
+    runs the model with; it stops checking the moment one of the two comparisons disappears from the source) -/
+theorem c12_pipeline (env : Env) : Pipeline (fromSource env) :=
+  c12_pipeline_of_binding (fromSource env)
+    (show KG.Gen.C12.bindsTokenToUpstream = true by decide) (show KG.Gen.C12.bindsSarToUpstream = true by decide)
 
 /-! ## where reviews go -/
 
@@ -425,7 +483,7 @@ theorem c12_token_review_target (s : State) (rid : Rid) (ch : Nat) (p : TokPend)
     (hf : findTok s rid = some p) (hst : p.stage = .missed cid) :
     (∃ e, mgrGet s.mgr p.host = some p.inst ∧ (p.inst, e) ∈ s.eps ∧ e.isReady = true ∧
         tokReview s rid ch = (setTok s { p with stage := .inFlight cid e.name (readyNames s p.inst) }, [])) ∨
-    (∃ k, k ≠ ErrKind.upstream ∧ tokReview s rid ch = (delTok s rid, [tokOutErr s rid p.host p.tok (some p.inst) k])) := by
+    (∃ k, k ≠ ErrKind.upstream ∧ tokReview s rid ch = (delTok s rid, [tokOutErr s rid p.host p.tok (some p.inst) p.upstream k])) := by
   unfold tokReview
   simp only [hf, hst]
   cases hcf : clientFor s p.host ch with
@@ -449,29 +507,37 @@ theorem c12_token_review_target (s : State) (rid : Rid) (ch : Nat) (p : TokPend)
       simp [hcur]
 
 /-- `Authorize`: cluster, cache key and client come from ONE `ClientFor`: the review goes through a ready endpoint of
-    the cluster the host resolves to, or the request is denied at once. -/
-theorem c12_sar_review_target (s : State) (rid : Rid) (host : Str) (attrs : Attrs) (ch : Nat) (hn : s.nextRid ≤ rid) :
-    (∃ c e, mgrGet s.mgr host = some c ∧ (c, e) ∈ s.eps ∧ e.isReady = true ∧
-        findSar (sarBegin s rid host attrs ch).1 rid = some ⟨rid, host, attrs, c, e.name, readyNames s c, .resolved⟩ ∧
-        (sarBegin s rid host attrs ch).2 = []) ∨
-    (∃ k, (k = ErrKind.notFound ∨ k = ErrKind.noReady) ∧
-        (sarBegin s rid host attrs ch).2 = [.sar ⟨rid, host, attrs, mgrGet s.mgr host, sarErr k, s.clock, .none, none, []⟩] ∧
-        (sarBegin s rid host attrs ch).1.sarPend = s.sarPend) := by
+    the cluster the host resolves to (which is the cluster the request is bound to, when binding is checked), or the
+    request is denied at once. -/
+theorem c12_sar_review_target (env : Env) (s : State) (rid : Rid) (host : Str) (attrs : Attrs) (ch : Nat) (up : Option Inst)
+    (hn : s.nextRid ≤ rid) :
+    (∃ c e, mgrGet s.mgr host = some c ∧ (c, e) ∈ s.eps ∧ e.isReady = true ∧ boundElsewhere env.cfg.bindSar up c = false ∧
+        findSar (sarBegin env s rid host attrs ch up).1 rid = some ⟨rid, host, attrs, c, up, e.name, readyNames s c, .resolved⟩ ∧
+        (sarBegin env s rid host attrs ch up).2 = []) ∨
+    (∃ k t, (k = ErrKind.notFound ∨ k = ErrKind.noReady ∨ k = ErrKind.moved) ∧
+        (sarBegin env s rid host attrs ch up).2 = [.sar t] ∧ t.res = sarErr k ∧ t.ep = none ∧
+        (sarBegin env s rid host attrs ch up).1.sarPend = s.sarPend) := by
   cases hcf : clientFor s host ch with
   | error k =>
     right
     rw [sarBegin_of_err hn hcf]
-    refine ⟨k, ?_, rfl, rfl⟩
+    refine ⟨k, _, ?_, rfl, rfl, rfl, rfl⟩
     cases clientFor_err hcf with
     | inl hx => exact Or.inl hx.1
-    | inr hx => exact Or.inr hx.1
+    | inr hx => exact Or.inr (Or.inl hx.1)
   | ok ce =>
     obtain ⟨c, e⟩ := ce
-    left
     obtain ⟨hg, hm⟩ := clientFor_ok hcf
     obtain ⟨h1, h2⟩ := mem_readyOf hm
-    rw [sarBegin_of_ok hn hcf]
-    exact ⟨c, e, hg, h1, h2, findSar_setSar _ _, rfl⟩
+    cases hbe : boundElsewhere env.cfg.bindSar up c with
+    | true =>
+      right
+      rw [sarBegin_of_bound hn hcf hbe]
+      exact ⟨.moved, _, Or.inr (Or.inr rfl), rfl, rfl, rfl, rfl⟩
+    | false =>
+      left
+      rw [sarBegin_of_ok hn hcf hbe]
+      exact ⟨c, e, hg, h1, h2, hbe, findSar_setSar _ _, rfl⟩
 
 /-! ## errors are not cached -/
 
@@ -515,7 +581,7 @@ Two live clusters: instance 0 accepts every token as user "A" and allows everyth
 Alias `x` first belongs to 0, is used (answer cached, TTL 100), then moves to 1 while 0 stays alive. -/
 
 def exEnv : Env :=
-  { cfg := ⟨100, 100, 100, 100⟩,
+  { cfg := { successTTL := 100, failureTTL := 100, allowTTL := 100, denyTTL := 100 },
     tokO := fun c _ _ => if c = 0 then .ok [65] else .no,
     sarO := fun c _ _ => if c = 0 then .status ⟨true, false, [65]⟩ else .status ⟨false, true, [66]⟩ }
 
@@ -545,8 +611,8 @@ example : (runSteps exEnv init (exSetup ++ sarSteps 0 hostX exAttrs 0 ++ exMove 
 /-- the hypotheses of `c12_token` are met by that history (fresh id 1; an answer to request 1 exists) -/
 example : (reach exEnv (exSetup ++ tokSteps 0 hostX [116] 0 0 ++ exMove)).nextRid ≤ 1 ∧
     ∃ t, Out.tok t ∈ (runSteps exEnv (reach exEnv (exSetup ++ tokSteps 0 hostX [116] 0 0 ++ exMove))
-        (.tokBegin 1 hostX [116] 0 :: (tokSteps 1 hostX [116] 0 0).tail)).2 ∧ t.rid = 1 ∧ t.res = .unauthenticated := by
-  refine ⟨by decide, ⟨1, hostX, [116], some 1, .unauthenticated, 1, .fresh, some [102], [[102]]⟩, by decide, rfl, rfl⟩
+        (.tokBegin 1 hostX [116] 0 none :: (tokSteps 1 hostX [116] 0 0).tail)).2 ∧ t.rid = 1 ∧ t.res = .unauthenticated := by
+  refine ⟨by decide, ⟨1, hostX, [116], some 1, none, .unauthenticated, 1, .fresh, some [102], [[102]]⟩, by decide, rfl, rfl⟩
 
 /-- same host, no move: the second answer comes from the cache of the SAME cluster, within the TTL … -/
 example : (runSteps exEnv init (exSetup ++ tokSteps 0 hostX [116] 0 0 ++ [.ev (.tick 99)] ++ tokSteps 1 hostX [116] 0 0)).2.map tokResOf =
@@ -557,9 +623,9 @@ example : (runSteps exEnv init (exSetup ++ tokSteps 0 hostX [116] 0 0 ++ [.ev (.
     [some (.authenticated [65], .fresh), some (.authenticated [65], .fresh)] := by decide
 
 /-- the host changes hands between the request's first `ClientFor` and the review closure: refused, nothing cached -/
-example : (runSteps exEnv init (exSetup ++ [.tokBegin 0 hostX [116] 0, .tokCache 0, .tokLookup 0, .ev (.addWithKey hostX 1),
+example : (runSteps exEnv init (exSetup ++ [.tokBegin 0 hostX [116] 0 none, .tokCache 0, .tokLookup 0, .ev (.addWithKey hostX 1),
       .tokReview 0 0, .tokFinish 0])).2.map tokResOf = [some (.error .moved, .none)] ∧
-    (runSteps exEnv init (exSetup ++ [.tokBegin 0 hostX [116] 0, .tokCache 0, .tokLookup 0, .ev (.addWithKey hostX 1),
+    (runSteps exEnv init (exSetup ++ [.tokBegin 0 hostX [116] 0 none, .tokCache 0, .tokLookup 0, .ev (.addWithKey hostX 1),
       .tokReview 0 0, .tokFinish 0])).1.tokEntries = [] := by decide
 
 /-- unknown host, and a cluster whose only endpoint is unhealthy: refused / denied without asking anybody -/
@@ -572,5 +638,36 @@ example : (runSteps exEnv init ([.ev (.setEndpoint 0 [101] false false), .ev (.a
 example : (runSteps exEnv init (exSetup ++ sarSteps 0 hostX exAttrs 0 ++
       [.ev (.deleteWithStop hostX), .ev .dropStopped, .ev (.addWithKey hostX 1), .ev (.tick 1)] ++ sarSteps 1 hostX exAttrs 0)).2.map sarResOf =
     [some (.allow, .fresh), some (.deny, .fresh)] := by decide
+
+/-! ### the filter-chain window
+
+`exEnv` does NOT check the binding (`bindTok = bindSar = false`, the tree before fix 45e3360). The request for `x`
+is bound to cluster 1 (which rejects the token and denies), then `x` moves to cluster 0 before the authenticator
+resolves it: the request — which will be proxied to cluster 1 — is authenticated / allowed by cluster 0. -/
+
+def exSetup1 : List Step :=
+  [.ev (.setEndpoint 0 [101] true false), .ev (.setEndpoint 1 [102] true false), .ev (.addWithKey hostX 1),
+   .ev (.addWithKey hostX 0)]   -- bound to 1 (first), then the name moves to 0
+
+example : (runSteps exEnv init (exSetup1 ++ tokSteps 0 hostX [116] 0 0 (some 1))).2.map tokResOf =
+    [some (.authenticated [65], .fresh)] := by decide
+
+/-- kernel-checked refutation of the full statement for a tree WITHOUT the two comparisons -/
+theorem c12_pipeline_refuted_without_binding : ∃ env : Env, env.cfg.bindTok = false ∧ env.cfg.bindSar = false ∧ ¬ Pipeline env := by
+  refine ⟨exEnv, rfl, rfl, fun h => ?_⟩
+  have hj := h.1 exSetup1 (tokSteps 0 hostX [116] 0 0 (some 1)).tail 0 hostX [116] 0 1
+    ⟨0, hostX, [116], some 0, some 1, .authenticated [65], 0, .fresh, some [101], [[101]]⟩
+    (by decide) (by decide) rfl (Or.inl rfl)
+  have hj' : TokRes.authenticated [65] = (exEnv.tokO 1 [116] 0).res := by simpa [TokJudge] using hj
+  exact absurd hj' (by decide)
+
+/-- … and with the comparisons the same history is refused (`moved`), for the token and for the impersonation check -/
+example : (runSteps (fromSource exEnv) init (exSetup1 ++ tokSteps 0 hostX [116] 0 0 (some 1) ++ sarSteps 1 hostX exAttrs 0 (some 1))).2.map
+      (fun o => (tokResOf o, sarResOf o)) =
+    [(some (.error .moved, .none), none), (none, some (.deny, .none))] := by decide
+
+/-- a bound request whose host did not move is served as before -/
+example : (runSteps (fromSource exEnv) init (exSetup ++ tokSteps 0 hostX [116] 0 0 (some 0))).2.map tokResOf =
+    [some (.authenticated [65], .fresh)] := by decide
 
 end KG.Props.C12
